@@ -118,3 +118,41 @@ def replay_all(cfg, expect, procs=16):
         steps += s
         comp += c
     return mism, len(leaves), steps, comp
+
+
+# --------------------------------------------------------------------------------------
+# code -> spec: record real executions and let TLC judge them (spec/PulserSeqTrace.tla)
+def record_trace(cfg, dev_index, key):
+    """Run the calls `key` (indices into cfg.calls) on a fresh real Sequence, logging the
+    projection of the real object after every call."""
+    run = Runner(cfg, dev_index)
+    ctx = _ctx(cfg, dev_index)
+    for k in cfg.init_calls:
+        run.call(cfg.calls[k - 1])
+    init = P.project(run.seq, ctx)
+    steps = []
+    for k in key:
+        out, ret = run.call(cfg.calls[k - 1])
+        steps.append({"k": k, "out": out, "ret": ret, "post": P.project(run.seq, ctx)})
+    return {"init": init, "steps": steps}
+
+
+def trace_check(cfg, traces, workdir, timeout=3600):
+    """Validate recorded traces with TLC.  Returns (TLCResult, reports) where reports is a list
+    of {t, l, drift, v} for every line that drifted from the model or violated a predicate."""
+    os.makedirs(workdir, exist_ok=True)
+    path = os.path.join(workdir, "traces.json")
+    with open(path, "w") as fh:
+        json.dump(traces, fh)
+    reports = []
+
+    def on_line(line):
+        if line.startswith('"TV|'):
+            reports.append(json.loads(unquote_tla_string(line)[3:]))
+
+    gen = cfg.gen_module(name="MC_trace", root="PulserSeqTrace")
+    cfgtxt = cfg.cfg_text(invariants=(), depth=0).replace("SPECIFICATION Spec", "SPECIFICATION TraceSpec")
+    cfgtxt += "POSTCONDITION AllConsumed\n"
+    res = run_tlc(workdir, "MC_trace", cfgtxt, gen, on_line=on_line, workers=1, timeout=timeout,
+                  env_extra={"TRACE_FILE": path})
+    return res, reports
